@@ -403,5 +403,5 @@ func vh_C02_L7_t3_runs_while_data_in_flight() {
 
 // C02.L8: the retransmission machinery the progress argument rests on (obligations of C19 / C07).
 func vh_C02_L8_backoff_capped_by_configured_rto_max() { vh_C19_L3_armed_duration() }
-func vh_C02_L8_t3_survives_stop_expiry_races()       { vh_C19_L3_retry_law() }
-func vh_C02_L8_skip_never_covers_reliable_data()     { vh_C07_L2_advance_only_over_abandoned() }
+func vh_C02_L8_t3_survives_stop_expiry_races()        { vh_C19_L3_retry_law() }
+func vh_C02_L8_skip_never_covers_reliable_data()      { vh_C07_L2_advance_only_over_abandoned() }
